@@ -580,6 +580,14 @@ def run(ctx):
     for si in sub:
         for ti in sub:
             work.append(("pair", si, ti, 16 if ctx.quick else 6))
+    # names bound to EMPTY structures (None, (), [], {}) as the first / second name of a composite
+    empties = [i for i, t in enumerate(d1) if t in (["none"], ["tuple", []], ["list", []], ["dict", {}])]
+    partners = sorted(set(empties + sub[:: (3 if ctx.quick else 1)] + [next(i for i, t in enumerate(d1) if t == ["tuple", [LEAF, LEAF]])]))
+    for ei in empties:
+        for pi in partners:
+            for a, b in ((ei, pi), (pi, ei)):
+                if not (a in sub and b in sub):
+                    work.append(("pair", a, b, 16 if ctx.quick else 6))
     # same-shape dict twins are looked at one after the other IN ONE PROCESS (single and pair forms),
     # so that anything remembered process-wide about one of them meets the other
     tw = twin_indices(d1)
